@@ -39,6 +39,8 @@ structure RatesCfg where
   cAsset : Nat
   isolated : Bool
   stableOk : Bool
+  liqPenalty : Dec := 0      -- LiquidationPenalty
+  eLiqPenalty : Dec := 0     -- ELiquidationPenalty (e-mode pairs)
   deriving Repr, DecidableEq
 
 structure PoolAsset where
@@ -136,6 +138,30 @@ structure Stats where
   totalBorrowed : Int
   totalStable : Int
   totalInterest : Int
+  lendIds : List Nat := []       -- PoolAssetLBMapping.LendIds
+  borrowIds : List Nat := []     -- PoolAssetLBMapping.BorrowIds (keyed by the pair's OUT pool / asset)
+  deriving Repr, DecidableEq
+
+/-- the reserve book-keeping of one asset: `ReserveBuybackAssetData` (`reserve`, `buyback`), `AllReserveStats` (the five flow totals) and the
+sum of the `FundReserveBal` entries of the asset (`funded`). A missing record reads as all-zero, as in the keeper (`!found` ⇒ zero record). -/
+structure Resv where
+  asset : Nat
+  reserve : Int := 0            -- ReserveBuybackAssetData.ReserveAmount
+  buyback : Int := 0            -- ReserveBuybackAssetData.BuybackAmount
+  outLenders : Int := 0         -- AllReserveStats.AmountOutFromReserveToLenders
+  outAuction : Int := 0         -- AllReserveStats.AmountOutFromReserveForAuction (first-generation auctions only)
+  inPenalty : Int := 0          -- AllReserveStats.AmountInFromLiqPenalty
+  inRepay : Int := 0            -- AllReserveStats.AmountInFromRepayments
+  totalOutLenders : Int := 0    -- AllReserveStats.TotalAmountOutToLenders (rewards paid, whatever their source)
+  funded : Int := 0             -- Σ FundReserveBal.AmountIn of the asset (MsgFundReserveAccounts)
+  deriving Repr, DecidableEq
+
+/-- the `LockedVault` of x/liquidationsV2 that a hand-over creates for a borrow (what the auction close reads back) -/
+structure Locked where
+  borrowId : Nat                -- OriginalVaultId
+  owner : Nat                   -- Owner (the lend position's owner at the hand-over)
+  target : Int                  -- TargetDebt = principal + FeeToBeCollected
+  fee : Int                     -- FeeToBeCollected
   deriving Repr, DecidableEq
 
 /-! ## Bank (small association list) -/
@@ -178,6 +204,8 @@ structure State where
   prices : List (Nat × Nat) := []      -- active oracle prices (asset id ↦ twa)
   killed : List Nat := []              -- app ids whose ESM kill switch (`BreakerEnable`) is on
   depPools : List Nat := []            -- pool ids listed in the pool-depreciation record
+  resv : List Resv := []               -- reserve book-keeping records per asset
+  locked : List Locked := []           -- second-generation locked vaults of handed-over borrows
   deriving Repr
 
 /-- `esm.GetKillSwitchData(app).BreakerEnable` -/
@@ -204,6 +232,52 @@ def addBorrowed (ss : List Stats) (p a : Nat) (stable : Bool) (d : Int) : List S
     if stable then { s with totalStable := s.totalStable + d } else { s with totalBorrowed := s.totalBorrowed + d }
 def addTotalInterest (ss : List Stats) (p a : Nat) (d : Int) : List Stats :=
   modStats ss p a fun s => { s with totalInterest := s.totalInterest + d }
+
+/-! ### id lists of the pool-asset record (`LendIds`, `BorrowIds`) -/
+
+/-- Go's `sort.Search(n, f)`: binary search on `[i, j)`, `fuel ≥ j - i` iterations suffice -/
+def sortSearch (f : Nat → Bool) : (fuel i j : Nat) → Nat
+  | 0, i, _ => i
+  | fuel + 1, i, j =>
+    if i < j then
+      let h := (i + j) / 2
+      if f h then sortSearch f fuel i h else sortSearch f fuel (h + 1) j
+    else i
+
+/-- `DeleteIDFromAssetStatsMapping` (lend.go:422-443) on one list: binary search for the first entry `≥ id` — the list is taken to be
+ascending — and removal of that entry if it is the id; otherwise nothing is removed. -/
+def delId (ids : List Nat) (id : Nat) : List Nat :=
+  let k := sortSearch (fun i => decide (ids.getD i 0 ≥ id)) ids.length 0 ids.length
+  if k < ids.length ∧ ids.getD k 0 = id then ids.eraseIdx k else ids
+
+def addLendId (ss : List Stats) (p a id : Nat) : List Stats := modStats ss p a fun s => { s with lendIds := s.lendIds ++ [id] }
+def delLendId (ss : List Stats) (p a id : Nat) : List Stats := modStats ss p a fun s => { s with lendIds := delId s.lendIds id }
+def addBorrowId (ss : List Stats) (p a id : Nat) : List Stats := modStats ss p a fun s => { s with borrowIds := s.borrowIds ++ [id] }
+def delBorrowId (ss : List Stats) (p a id : Nat) : List Stats := modStats ss p a fun s => { s with borrowIds := delId s.borrowIds id }
+
+/-! ### reserve book-keeping records -/
+
+def getResv (rs : List Resv) (a : Nat) : Resv :=
+  match rs.find? (fun r => r.asset == a) with
+  | some r => r
+  | none => { asset := a }
+
+/-- read-modify-write of the record of asset `a` (created as a zero record when missing) -/
+def modResv (rs : List Resv) (a : Nat) (f : Resv → Resv) : List Resv :=
+  if rs.any (fun r => r.asset == a) then rs.map fun r => if r.asset = a then f r else r
+  else rs ++ [f { asset := a }]
+
+/-- the record part of `UpdateReserveBalances` (funds.go:9-33): BOTH halves move by `⌊x/2⌋` (`sdk.Int.Quo`), up (`inc`) or down -/
+def Resv.halves (r : Resv) (x : Int) (inc : Bool) : Resv :=
+  if inc then { r with reserve := r.reserve + Int.tdiv x 2, buyback := r.buyback + Int.tdiv x 2 }
+  else { r with reserve := r.reserve - Int.tdiv x 2, buyback := r.buyback - Int.tdiv x 2 }
+
+/-- coins that entered minus coins that left the reserve module account according to the records of the asset -/
+def Resv.flow (r : Resv) : Int := r.funded + r.inPenalty + r.inRepay - r.outLenders - r.outAuction
+
+/-- an interest share paid into the reserve: `UpdateReserveBalances(…, inc)` + `UpdateReserveAmtFromRepayments` -/
+def resvRepay (rs : List Resv) (a : Nat) (x : Int) : List Resv :=
+  modResv rs a fun r => { r.halves x true with inRepay := r.inRepay + x }
 
 /-- the derived `UserAssetLendBorrowMapping.BorrowId` of a lend -/
 def borrowsOfLend (bs : List Borrow) (lid : Nat) : List Borrow := bs.filter fun b => b.lendingId == lid
@@ -268,11 +342,14 @@ def iterLends (cfg : Cfg) (s : State) (lendId : Nat) (r : Int) : E State := do
       let b2 ← b1.mint pool.acct rates.cAsset r
       let b3 ← b2.send pool.acct l.owner rates.cAsset r
       pure { s with bank := b3, lends := setLend s.lends { l with avail := l.avail + r },
-                                            stats := addTotalLend s.stats l.pool l.asset r }
+                                            stats := addTotalLend s.stats l.pool l.asset r,
+                                            resv := modResv s.resv l.asset fun x =>
+                                              { x.halves r false with outLenders := x.outLenders + r, totalOutLenders := x.totalOutLenders + r } }
     else
       let b1 ← s.bank.send pool.acct l.owner rates.cAsset r
       pure { s with bank := b1, lends := setLend s.lends { l with avail := l.avail + r },
-                                            stats := addTotalLend (addTotalInterest s.stats l.pool l.asset (-r)) l.pool l.asset r }
+                                            stats := addTotalLend (addTotalInterest s.stats l.pool l.asset (-r)) l.pool l.asset r,
+                                            resv := modResv s.resv l.asset fun x => { x with totalOutLenders := x.totalOutLenders + r } }
   else pure s
 
 /-- What the real `IterateBorrow` did: it added `dI` to the interest and `dR` to the reserve share, or returned an
@@ -337,7 +414,7 @@ def lendNew (cfg : Cfg) (s : State) (u asset : Nat) (amt : Int) (pool : PoolCfg)
   let _ ← orErr (getStats s.stats pool.id asset) "stats not found"
   let l : Lend := { id := s.lendCtr + 1, owner := u, pool := pool.id, asset := asset, amountIn := amt, avail := amt, app := app }
   pure { s with bank := b3, lendCtr := s.lendCtr + 1, lends := s.lends ++ [l],
-                                            stats := addTotalLend s.stats pool.id asset amt }
+                                            stats := addLendId (addTotalLend s.stats pool.id asset amt) pool.id asset (s.lendCtr + 1) }
 
 /-- `LendAsset` (keeper.go:134-267) -/
 def lend (cfg : Cfg) (s : State) (u asset denom : Nat) (amt : Int) (poolId app : Nat) (r : Int) : E State := do
@@ -361,7 +438,7 @@ def closeLend (cfg : Cfg) (s : State) (u lendId : Nat) (r : Int) : E State := do
   let b2 ← b1.burn pool.acct rates.cAsset l.avail
   let b3 ← b2.send pool.acct u l.asset l.avail
   pure { s1 with bank := b3, lends := delLend s1.lends lendId,
-                                            stats := addTotalLend s1.stats l.pool l.asset (-l.avail) }
+                                            stats := delLendId (addTotalLend s1.stats l.pool l.asset (-l.avail)) l.pool l.asset lendId }
 
 /-- `WithdrawAsset` (keeper.go:269-374) -/
 def withdraw (cfg : Cfg) (s : State) (u lendId denom : Nat) (w r : Int) : E State := do
@@ -469,7 +546,7 @@ def openBorrow (s : State) (l : Lend) (pair : PairCfg) (stable : Bool) (dIn : Na
                       brDenom := brDenom, bridged := br, reserveInt := 0 }
   { s with bank := bank, borrowCtr := s.borrowCtr + 1, borrows := s.borrows ++ [b],
            lends := setLend s.lends { l with avail := l.avail - aIn },
-           stats := addBorrowed s.stats pair.outPool pair.assetOut stable aOut }
+           stats := addBorrowId (addBorrowed s.stats pair.outPool pair.assetOut stable aOut) pair.outPool pair.assetOut (s.borrowCtr + 1) }
 
 /-- `BorrowAsset` (keeper.go:527-863) when the user has no borrow on this pair yet (from line 597). -/
 def borrowNew (cfg : Cfg) (s : State) (u : Nat) (l : Lend) (pair : PairCfg) (rates : RatesCfg) (stable : Bool)
@@ -588,7 +665,8 @@ def closeBorrow (cfg : Cfg) (s : State) (u borrowId : Nat) (ext : ExtB) : E Stat
   let _ ← orErr (getStats s1.stats pair.outPool pair.assetOut) "stats not found"
   pure { s1 with bank := k5, borrows := delBorrow s1.borrows borrowId,
                                             lends := setLend s1.lends { l with avail := l.avail + b.amountIn },
-                                            stats := addBorrowed st1 pair.outPool pair.assetOut b.stable (-b.amountOut) }
+                                            stats := delBorrowId (addBorrowed st1 pair.outPool pair.assetOut b.stable (-b.amountOut)) pair.outPool pair.assetOut borrowId,
+                                            resv := if toReserve > 0 then resvRepay s1.resv pair.assetOut toReserve else s1.resv }
 
 /-- `RepayAsset` (keeper.go:865-1031) -/
 def repay (cfg : Cfg) (s : State) (u borrowId denom : Nat) (p : Int) (ext : ExtB) : E State := do
@@ -611,14 +689,16 @@ def repay (cfg : Cfg) (s : State) (u borrowId denom : Nat) (p : Int) (ext : ExtB
     let k1 ← s1.bank.send u pool.acct denom p
     if p ≤ toReserve then
       let k2 ← k1.send pool.acct cfg.reserveAcct denom p
-      pure { s1 with bank := k2, borrows := (setBorrow s1.borrows { b with reserveInt := b.reserveInt - Dec.ofInt p, interest := b.interest - Dec.ofInt p }) }
+      pure { s1 with bank := k2, resv := resvRepay s1.resv pair.assetOut p,
+                                            borrows := (setBorrow s1.borrows { b with reserveInt := b.reserveInt - Dec.ofInt p, interest := b.interest - Dec.ofInt p }) }
     else if p ≤ Dec.truncateInt b.interest then
       let k2 ← k1.send pool.acct cfg.reserveAcct denom toReserve
       let c := p - toReserve
       check (decide (¬ c < 0)) "reserve rates not found"
       let k3 ← if c > 0 then k2.mint pool.acct ratesOut.cAsset c else pure k2
       let st1 := if c > 0 then addTotalInterest s1.stats pair.outPool pair.assetOut c else s1.stats
-      pure { s1 with bank := k3, stats := st1, borrows := (setBorrow s1.borrows { b with reserveInt := b.reserveInt - Dec.ofInt toReserve, interest := b.interest - Dec.ofInt p }) }
+      pure { s1 with bank := k3, stats := st1, resv := resvRepay s1.resv pair.assetOut toReserve,
+                                            borrows := (setBorrow s1.borrows { b with reserveInt := b.reserveInt - Dec.ofInt toReserve, interest := b.interest - Dec.ofInt p }) }
     else
       let k2 ← k1.send pool.acct cfg.reserveAcct denom toReserve
       let c := Dec.truncateInt (b.interest - b.reserveInt)
@@ -628,7 +708,7 @@ def repay (cfg : Cfg) (s : State) (u borrowId denom : Nat) (p : Int) (ext : ExtB
       let cut := p - Dec.truncateInt b.interest
       let _ ← orErr (getStats s1.stats pair.outPool pair.assetOut) "stats not found"
       let st2 := addBorrowed st1 pair.outPool pair.assetOut b.stable (-cut)
-      pure { s1 with bank := k3, stats := st2,
+      pure { s1 with bank := k3, stats := st2, resv := resvRepay s1.resv pair.assetOut toReserve,
                                             borrows := (setBorrow s1.borrows { b with reserveInt := b.reserveInt - Dec.ofInt toReserve, amountOut := b.amountOut - cut, interest := b.interest - Dec.ofInt (Dec.truncateInt b.interest) }) }
 
 /-- `RepayWithdraw` (keeper.go:1981-1993) -/
@@ -697,7 +777,9 @@ def fundReserve (cfg : Cfg) (s : State) (u asset denom : Nat) (amt : Int) : E St
   let _ ← orErr (cfg.asset? asset) "asset does not exist"
   check (denom == asset) "bad offer coin type"
   let k1 ← s.bank.send u cfg.reserveAcct denom amt
-  pure { s with bank := k1 }
+  -- both record halves by ⌊amt/2⌋, one `FundReserveBal` entry of `amt`; `RemoveFaultyAuctions` (keeper.go:1625) runs over the
+  -- first-generation lend auctions of app 3 — none exist in a second-generation world
+  pure { s with bank := k1, resv := modResv s.resv asset fun r => { r.halves amt true with funded := r.funded + amt } }
 
 /-! ## Liquidation hand-over (x/liquidationsV2/keeper/liquidate.go:360-404) -/
 
@@ -718,10 +800,71 @@ def handover (cfg : Cfg) (s : State) (borrowId : Nat) (newInterest : Dec) : E St
   let st := addTotalLend (addBorrowed s.stats pair.outPool pair.assetOut b.stable (-b.amountOut)) l.pool l.asset (-b.amountIn)
   let bs := setBorrow s.borrows { b with liq := true, interest := newInterest }
   let l' : Lend := { l with amountIn := l.amountIn - b.amountIn }
+  -- `CreateLockedVault`: the fee always uses `LiquidationPenalty` (liquidate.go:372), also on an e-mode pair
+  let fee := Dec.truncateInt (Dec.mul (Dec.ofInt b.amountOut) rates.liqPenalty)
+  check (decide (¬ fee < 0)) "negative coin"
+  let lk := s.locked ++ [{ borrowId := b.id, owner := l.owner, target := b.amountOut + fee, fee := fee }]
   if ¬ l'.amountIn > 0 then
-    pure { s with bank := k2, borrows := bs, stats := st, lends := delLend s.lends l.id }
+    pure { s with bank := k2, borrows := bs, stats := delLendId st l.pool l.asset l.id, lends := delLend s.lends l.id, locked := lk }
   else
-    pure { s with bank := k2, borrows := bs, stats := st, lends := setLend s.lends l' }
+    pure { s with bank := k2, borrows := bs, stats := st, lends := setLend s.lends l', locked := lk }
+
+/-! ## After the hand-over: the second-generation Dutch auction (x/auctionsV2/keeper/bid.go) -/
+
+def getLocked (ks : List Locked) (borrowId : Nat) : Option Locked := ks.find? (fun k => k.borrowId == borrowId)
+def delLocked (ks : List Locked) (borrowId : Nat) : List Locked := ks.filter fun k => k.borrowId != borrowId
+
+/-- A partial fill (`PlaceDutchAuctionBid`, bid.go:234-290): the bidder pays `paid` of the debt asset into the auction module and
+receives `recv` of the collateral. Price, dust rule and bonus share are property C10; the lending books are not touched. -/
+def auctionBid (cfg : Cfg) (s : State) (bidder borrowId : Nat) (paid recv : Int) : E State := do
+  let b ← orErr (getBorrow s.borrows borrowId) "borrow not found"
+  let _ ← orErr (getLocked s.locked borrowId) "locked vault not found"
+  check b.liq "borrow not under liquidation"
+  let pair ← orErr (cfg.pair? b.pairId) "pair not found"
+  let k1 ← s.bank.send bidder cfg.auctionAcct b.outDenom paid
+  let k2 ← k1.send cfg.auctionAcct bidder pair.assetIn recv
+  pure { s with bank := k2 }
+
+/-- The closing bid (bid.go:52-233) with the lend branch `MsgCloseDutchAuctionForBorrow` (x/liquidationsV2/keeper/liquidate.go:722-814).
+Auction side (amounts are inputs, their laws are property C10): `topUp` drawn from the liquidation module's app reserve when the
+collateral runs out, the bidder pays `paid` and receives `recv` of the collateral, the rest `left` goes to the owner recorded in the
+locked vault. Lending side (modelled exactly): the target debt goes to the debt pool; from there the liquidation penalty on the
+principal (the e-mode penalty on an e-mode pair) and the whole tokens of the reserve's interest share go to the reserve with their
+records; cTokens for the lenders' interest share are minted into `totalInterestAccumulated`; the bridged transit asset returns to the
+collateral's pool (read from the lend position — a deleted position makes the bank call panic); the borrow, its id-list entry and
+the locked vault are deleted. -/
+def auctionClose (cfg : Cfg) (s : State) (bidder borrowId : Nat) (paid recv left topUp : Int) : E State := do
+  let b ← orErr (getBorrow s.borrows borrowId) "borrow not found"
+  let lk ← orErr (getLocked s.locked borrowId) "locked vault not found"
+  -- stands for the invariant "a locked vault's borrow carries the liquidation flag" (locked vaults are created by the hand-over only,
+  -- which sets the flag, and no handler clears it); the code has no such test
+  check b.liq "borrow not under liquidation"
+  let pair ← orErr (cfg.pair? b.pairId) "pair not found"
+  let k0 ← s.bank.mint cfg.auctionAcct b.outDenom topUp
+  let k1 ← k0.send bidder cfg.auctionAcct b.outDenom paid
+  let k2 ← k1.send cfg.auctionAcct bidder pair.assetIn recv
+  let k3 ← k2.send cfg.auctionAcct lk.owner pair.assetIn left
+  -- MsgCloseDutchAuctionForBorrow
+  let pool ← orErr (cfg.pool? pair.outPool) "pool not found"
+  let ratesOut ← orErr (cfg.rates? pair.assetOut) "rates not found"
+  let ratesIn ← orErr (cfg.rates? pair.assetIn) "rates not found"
+  let k4 ← k3.send cfg.auctionAcct pool.acct b.outDenom lk.target
+  let pen := Dec.truncateInt (Dec.mul (Dec.ofInt b.amountOut) (if pair.eMode then ratesIn.eLiqPenalty else ratesIn.liqPenalty))
+  let k5 ← k4.send pool.acct cfg.reserveAcct b.outDenom pen
+  let r1 := modResv s.resv pair.assetOut fun r => { r.halves pen true with inPenalty := r.inPenalty + pen }
+  let toReserve := Dec.truncateInt b.reserveInt
+  let k6 ← if toReserve > 0 then k5.send pool.acct cfg.reserveAcct b.outDenom toReserve else pure k5
+  let r2 := if toReserve > 0 then resvRepay r1 pair.assetOut toReserve else r1
+  let toMint := Dec.truncateInt (b.interest - b.reserveInt)
+  let k7 ← if toMint > 0 then k6.mint pool.acct ratesOut.cAsset toMint else pure k6
+  let st1 := if toMint > 0 then addTotalInterest s.stats pair.outPool pair.assetOut toMint else s.stats
+  let k8 ← if b.bridged > 0 then do
+      let l ← orErr (getLend s.lends b.lendingId) "module account does not exist"     -- bank panic on the empty module name
+      let inPool ← orErr (cfg.pool? l.pool) "module account does not exist"
+      k7.send pool.acct inPool.acct b.brDenom b.bridged
+    else pure k7
+  pure { s with bank := k8, borrows := delBorrow s.borrows borrowId, locked := delLocked s.locked borrowId, resv := r2,
+                stats := delBorrowId st1 pair.outPool pair.assetOut borrowId }
 
 /-! ## Operations, step, run -/
 
@@ -745,6 +888,8 @@ inductive Op where
   | setKill (app : Nat) (on : Bool)
   | setDepreciated (pool : Nat)
   | handover (borrowId : Nat) (newInterest : Dec)
+  | bid (bidder borrowId : Nat) (paid recv : Int)
+  | auctionClose (bidder borrowId : Nat) (paid recv left topUp : Int)
   deriving Repr
 
 /-- `ValidateBasic` of the message (x/lend/types/tx.go): ids non-zero, amounts positive. -/
@@ -768,6 +913,8 @@ def Op.validateBasic : Op → Bool
   | .setKill .. => true
   | .setDepreciated .. => true
   | .handover .. => true
+  | .bid .. => true
+  | .auctionClose .. => true
 
 def setPrice (s : State) (asset : Nat) (twa : Option Nat) : State :=
   let rest := s.prices.filter fun e => e.1 != asset
@@ -804,6 +951,8 @@ def step (cfg : Cfg) (s : State) (op : Op) : E State :=
   | .setKill app on => .ok (setKill s app on)
   | .setDepreciated pool => .ok (setDepreciated s pool)
   | .handover borrowId ni => handover cfg s borrowId ni
+  | .bid bidder borrowId paid recv => auctionBid cfg s bidder borrowId paid recv
+  | .auctionClose bidder borrowId paid recv left topUp => auctionClose cfg s bidder borrowId paid recv left topUp
 
 /-- a rejected message leaves the state unchanged (cache context written back only on success) -/
 def apply (cfg : Cfg) (s : State) (op : Op) : State :=
